@@ -495,6 +495,9 @@ class StmtMixin:
             if cur is None:
                 fr.vars[name] = fresh(ty, self.fresh_name(name))
                 self.assume_type(fr.vars[name], ty)
+            elif isinstance(cur, VOpaque) and cur.tag in ('emptyset', 'emptylist') and ty.kind == 'seq':
+                fr.vars[name] = VSeq(z3.IntVal(0), fresh(ty.elem, self.fresh_name(name + '0'), 1),
+                                     'set' if cur.tag == 'emptyset' else ty.skind)
             else:
                 fr.vars[name] = coerce(cur, fresh(ty, '_shape'))
         # 1. invariant on entry
@@ -506,6 +509,19 @@ class StmtMixin:
         mod_vars = assigned_names(body_nodes)
         for g in spec.ghost_pre:
             mod_vars |= assigned_names(ast.parse(g.strip()).body)
+        c = fr.contract
+        if c is not None and (c.ghost_before or c.ghost_after):
+            # ghost statements anchored at statements inside this loop body assign ghost variables of the loop
+            texts = []
+            for b in body_nodes:
+                for n in ast.walk(b):
+                    if isinstance(n, (ast.Assign, ast.Expr, ast.AugAssign, ast.AnnAssign, ast.Return)):
+                        texts.append(ast.unparse(n))
+            for table in (c.ghost_before, c.ghost_after):
+                for key, stmts in table.items():
+                    if any(t.startswith(key) for t in texts):
+                        for g in stmts:
+                            mod_vars |= assigned_names(ast.parse(g.strip()).body)
         if kind == 'for':
             mod_vars |= assigned_names([node.target])
             mod_vars.add(idx_name)
